@@ -68,6 +68,15 @@ def cases(tier, rng):
             snd = "send @a;%s" % m if t == "ROUTER" else "send %s" % m
             out.append("w%d sock %s / %s / hs a / %s / wire a" % (k, t, pre, snd))
             k += 1
+    # REQ with two servers of which one has gone (its id still in the rotation): every request on the wire is still exactly
+    # one empty delimiter and the message's frames
+    for lens in [(5, 300), (0,), (255, 0, 256)]:
+        m = ";".join(frame_tok(l, k + i) for i, l in enumerate(lens))
+        rep = "010000026f6b"
+        ops = ["attach a REP", "attach b REP", "send " + m, "wire a", "wire b", "eof a", "recv", "send " + m, "wire a", "wire b",
+               "feed b " + rep, "recv", "send " + m, "wire a", "wire b", "feed b " + rep, "recv", "send " + m, "wire a", "wire b"]
+        out.append("m%d sock REQ / %s" % (k, " / ".join(ops)))
+        k += 1
     # a socket configured with an identity announces it in its READY, whatever its type
     for t, pt in (("PUSH", "PULL"), ("PULL", "PUSH"), ("DEALER", "ROUTER"), ("ROUTER", "DEALER"), ("REQ", "REP"), ("REP", "REQ"),
                   ("PUB", "SUB"), ("SUB", "PUB"), ("XPUB", "SUB")):
@@ -117,7 +126,7 @@ def py_hdr(more, n):
 
 def compare_filter(line):
     # encdec: implementation-only round trip; i: socket-level identity option (the model's sockets have no options)
-    return line.split()[1] != "encdec" and not line.startswith("i")
+    return line.split()[1] != "encdec" and not line.startswith(("i", "m"))
 
 
 def model_cases(case_lines):
@@ -187,6 +196,19 @@ def judge(line, impl_obs, orc):
         for i, (l, t) in enumerate(zip(lens, toks)):
             if t != py_hdr(i < len(lens) - 1, l).hex() + ":1":
                 return "frame %d (len %d) header/body wrong: %s" % (i, l, t)
+    elif kind == "sock" and cid.startswith("m"):
+        frames = [expand(x) for x in [t2 for t2 in line.split(" / ") if t2.startswith("send ")][0][5:].split(";")]
+        want = b""
+        for i, f in enumerate([b""] + frames):
+            want += py_hdr(i < len(frames), len(f)) + f
+        toks = impl_obs.split()
+        nonempty = [t for t in toks if t.startswith("wire:") and not t.endswith("=-")]
+        sends = [t for t in toks if t.startswith("s=")]
+        if sends.count("s=ok") != len(nonempty):
+            return "REQ with a vanished server: %d sends succeeded, %d wires carry bytes" % (sends.count("s=ok"), len(nonempty))
+        for t in nonempty:
+            if t.split("=", 1)[1] != want.hex():
+                return "REQ request on the wire is not one empty delimiter + the message's frames: %s" % t[:120]
     elif kind == "sock" and cid.startswith("i"):
         t = sp[2]
         ident = sp[3][3:]
